@@ -47,6 +47,11 @@ CHECKS = {
    text="(a) every history of <=3 requests x 4 sink configurations x every combination of <=2 (thorough 4) injected faults over the audit file's open/write/close (in-memory vos file system substituted for package os in lib/audit by overlay); (b) every interleaving with <=3 preemptions of 2 concurrent /sign handlers and <=2 of 3 (thorough 4/3), scheduling points at every hooked mutex, scripted-token and audit-file operation of the real server; (c) the standalone pipeline x open/write faults. Oracle: successful responses <-> audit lines bijection, record present in the sink before the first response byte, every line one complete JSON object, record fields = request's key/type/digest/client, no signature bytes when a sink failed.",
    note="Trusted: vsync/vos/vtime shims and mc.Sched (unit-tested: finds a lost update with 1 preemption, a lock-order deadlock with 2), scripted token. O_APPEND modelled as atomic positioned append. AMQP only as 'connection refused'. Memory orderings weaker than sequential consistency are not modelled.",
    ref="4/C06"),
+ "C10": dict(level="model_checking", engine="E2 full-product enumeration of authority behaviours (mc.Explore) on the real signing pipeline + explicit enumeration on the verify side",
+   technique="stateless exhaustive exploration of all authority-behaviour sequences over the configured URLs for 5 attach paths through the real pipeline against a loopback authority; explicit enumeration of leaf-validity x token x authority x attested-time cases on the verifier, both against reference models",
+   text="Sign side: every sequence of 16 RFC 3161 behaviours (valid, granted-with-mods, wrong/absent nonce, wrong imprint value/algorithm, rejection/waiting status, rejection carrying a valid token, corrupted signature, signed by another key, no certificate, HTTP 500, garbage, empty, dropped connection) or 9 legacy-protocol behaviours over 1-2 URLs (thorough 3), as a choice tree ending at the first acceptable answer, for PowerShell (Authenticode OID), JAR (RFC 3161 OID), ClickOnce manifest (RFC 3161 and legacy) and VSIX: the artifact must carry exactly the first acceptable authority's token (identified by its attested time), else signing must fail without artifact after asking every URL in order. Verify side: 3 leaf validity windows x {no token, valid token under either OID, token grafted from another signature} x 4 authorities (trusted, no timestamping EKU, untrusted, short-lived) x 7 attested times vs the reference formula.",
+   note="Trusted: verif/tsa (from-scratch authority, tokens validated with `openssl ts -verify`), loopback HTTP, relic verify's report of the attested time (used to identify which authority's token was attached). Hanging authorities and the memcached timestamp cache are not in the alphabet.",
+   ref="4/C10"),
 }
 NOT_YET = {}
 ALL = ["C%02d" % i for i in range(1, 21)]
